@@ -1,2 +1,9 @@
-import NipyVerif.Model.C12
-def main : IO Unit := NipyVerif.driverLoop NipyVerif.C12.run
+import NipyVerif.Model.C12B
+import NipyVerif.Model.C12F
+import NipyVerif.Model.C12W
+def main : IO Unit := NipyVerif.driverLoop
+  (fun ts => match NipyVerif.C12.runF ts with
+    | some s => s
+    | none => match NipyVerif.C12.runW ts with
+      | some s => s
+      | none => NipyVerif.C12.runB ts)
